@@ -50,6 +50,7 @@ try:
     print("seed", s, "line", v["i"], v.get("clause"), json.dumps(v.get("detail"))[:300])
     subprocess.run([os.path.join(ROOT, "lib/record_corpus.py"), pid, name, binm, str(s), n, "--upto", str(v["i"] + 2), "--note", note] + ["%s=%s" % kv for kv in env.items()], check=True)
     rel = os.path.join(ROOT, "corpus/%s-%s.rec.jsonl.gz" % (pid, name))
+    subprocess.run([os.path.join(ROOT, "lib/shrink_rec.py"), pid, rel, binm] + (["--clause", v["clause"]] if v.get("clause") else []))
     e = dict(VERIF_MODE="histreplay", VERIF_SEED="0", VERIF_N="0", VERIF_REPLAY_FILE=rel)
     vm = first_viol(verdicts(binm, e, tempfile.mktemp(suffix=".jsonl")))
     subprocess.run(["sh", "-c", "cd %s/harness && go test -c -tags verif -o %s/build/harness.test ." % (ROOT, ROOT)], check=True,
